@@ -277,7 +277,25 @@ def run(ctx, impl_only=False):
     def f10c():
         d = DeepDiff({"it's": {'x': 1}, 'a': 5}, {"it's": {'x': 2}, 'a': 6}, include_paths=['root["it\'s"]'], threshold_to_diff_deeper=0)
         return 'values_changed' in d and any('x' in k for k in d['values_changed'])
-    for fid, fn in {'F10a': f10a, 'F10b': f10b, 'F10c': f10c}.items():
+    def f59():
+        # a location whose path has no string form (a non-finite float key, a UUID key) under every kind of restriction: nothing raises, and an
+        # exclusion that cannot name the location leaves its entry in place
+        import uuid, logging
+        logging.disable(logging.CRITICAL)
+        try:
+            ok = True
+            for key in (float('inf'), uuid.UUID(int=1)):
+                t1, t2 = {key: 1, 'a': {'b': 1}}, {key: 2, 'a': {'b': 2}}
+                for kw in (dict(exclude_regex_paths=[r"\['b'\]$"]), dict(exclude_regex_paths=[re.compile('zzz')]), dict(exclude_paths=["root['a']"]), dict(include_paths=["root['a']"])):
+                    d = DeepDiff(t1, t2, threshold_to_diff_deeper=0, **kw)
+                    if 'include_paths' not in kw and None not in d.get('values_changed', {}):
+                        ok = False
+                    if 'include_paths' in kw and "root['a']['b']" not in d.get('values_changed', {}):
+                        ok = False
+            return ok
+        finally:
+            logging.disable(logging.NOTSET)
+    for fid, fn in {'F10a': f10a, 'F10b': f10b, 'F10c': f10c, 'F59': f59}.items():
         ctx.evaluations += 1
         try:
             ok = fn()
